@@ -307,7 +307,13 @@ macro_rules! bezier_impl_cubic_axis {
                             None
                         }
                     } else {
-                        Some((-c / b, None))
+                        // The only root of the linear derivative, if it lies inside the curve's parameter range
+                        let t = -c / b;
+                        if T::zero() < t && t < T::one() {
+                            Some((t, None))
+                        } else {
+                            None
+                        }
                     };
                 }
 
